@@ -26,4 +26,8 @@ def run(tier: str, seed: int):
     if tier != 'quick':
         x_cf, x_se, x_e3 = F.thorough_extras('C17')
         cfgs, serial, e3c = list(cfgs) + x_cf, list(serial) + x_se, list(e3c) + x_e3
+    # tasks whose result is None
+    cfgs = list(cfgs) + list(F.fam_none(3))
+    serial = list(serial) + list(F.fam_none(2))
+    e3c = list(e3c) + list(F.fam_e3(F.fam_none(2), workers=(2,), liveness=False))
     return run_e2_property('C17', tier, seed, cfgs, serial_configs=serial, e3_configs=e3c, hash_slices=([('faults3', 1), ('faults3', 2), ('shapes3', 1)] if tier == 'quick' else [('faults3', 1), ('faults3', 2), ('faults3', 3), ('shapes3', 1), ('faults4', 1), ('faults4', 2)]), real_cases=list(F.fam_real(F.real_bases('plain') + F.real_bases('faults'), workers=(2,))), rule=rule, assumptions=ASSUME)
